@@ -709,6 +709,8 @@ def xenv_cases():
         (sy, q1, sy, q1, (("a", ("Not", "b")),)),
         (sy, ("And", "b", ("ForAll", ("list", "c"), ("Or", "a", "c"))), sy, ("And", "a", ("ForAll", ("list", "a"), ("Or", "b", "a"))), (("a", "c"), ("b", ("Not", "a")))),
         (sy, q2, sy, q2, (("x", ("Plus", "y", ("Int", P(1)))),)),
+        (sy, ("ForAll", ("list", "x"), ("LT", ("Int", P(0)), "x")), sy, ("ForAll", ("list", "x"), ("LT", ("Int", P(0)), "x")), ()),
+        (sy, ("And", "a", ("Exists", ("list", "y"), ("LT", "x", "z"))), sy, ("And", "a", ("Exists", ("list", "x"), ("LT", "x", "z"))), ()),
         (sy, ("Or", ("Exists", ("list", "y"), ("LT", "x", "y")), ("LT", "y", "z")), sy, q2, (("x", "z"), ("y", "x"))),
         (sa_, ext, sb_, ext, ()),
         (sa_, sext, sb_, sext, ()),
@@ -739,7 +741,8 @@ def _xenv_job(idx):
                         out.append((acc, ac_sig(w, it.call(it.getattr(n, acc), []))))
                     except AbsRaise as ex_:
                         out.append((acc, "raises " + ex_.cls_name))
-                for svc, meth in (("stc", "get_type"), ("fvo", "get_free_variables"), ("sizeo", "get_size"), ("qfo", "is_qf")):
+                for svc, meth in (("stc", "get_type"), ("fvo", "get_free_variables"), ("sizeo", "get_size"), ("qfo", "is_qf"),
+                                  ("simplifier", "simplify"), ("ao", "get_atoms")):
                     try:
                         out.append((svc, ac_sig(w, it.call(it.getattr(it.getattr(env, svc), meth), [n]))))
                     except AbsRaise as ex_:
